@@ -141,11 +141,4 @@ def runScenario (j : Json) : List Json × World :=
     let o := runStep cfg acc.2 s
     (acc.1 ++ [o.json], o.world)) ([], w0)
 
-def handle (op : String) (j : Json) : Option Json :=
-  match op with
-  | "scenario" =>
-    let (outs, _) := runScenario j
-    some (obj [("model", obj [("steps", Json.arr outs.toArray)]), ("holds", Json.bool true)])
-  | _ => none
-
 end Lc.Driver.Scenario
